@@ -194,4 +194,68 @@ mod proofs {
         std::mem::forget(sb);
         forget_inner(inner);
     }
+
+    /// `server::Peer::convert_push_message` turns the application's http::Request into a PUSH_PROMISE frame (URI parsing,
+    /// header validation: verified on its own by the C13 harnesses).  Here only the identifiers matter.
+    fn stub_convert_push_message(stream_id: StreamId, promised_id: StreamId, request: http::Request<()>) -> Result<frame::PushPromise, UserError> {
+        std::mem::forget(request); // dropping an http::Request (Uri = Bytes, HeaderMap, Extensions) is minutes of CBMC drop glue
+        Ok(frame::PushPromise::new(stream_id, promised_id, frame::Pseudo::default(), http::HeaderMap::new()))
+    }
+    fn stub_check_headers_ok(_fields: &http::HeaderMap) -> Result<(), UserError> {
+        Ok(())
+    }
+
+    // C02 (and C03): the stream a server creates for a PUSH_PROMISE gets the SEND window the peer advertised
+    // (Send::init_window_sz) and the RECEIVE window this endpoint advertised (Recv::init_window_sz) — the two
+    // values are independent symbolic numbers, so swapping them cannot go unnoticed — and it is reserved(local),
+    // waiting for its PUSH_PROMISE, with the next local stream id.
+    // @harness id=streamref_send_push_promise_new_stream props=C02,C03,C04 kind=complete tier=thorough timeout=2400 fn=StreamRef::send_push_promise
+    #[kani::proof]
+    #[kani::unwind(3)]
+    #[kani::stub(crate::server::Peer::convert_push_message, stub_convert_push_message)]
+    #[kani::stub(crate::proto::streams::send::Send::check_headers, stub_check_headers_ok)]
+    fn streamref_send_push_promise_new_stream() {
+        use crate::proto::streams::flow_control::verif_kani::raw;
+        use crate::proto::streams::store::verif_kani::{peek, put};
+        use crate::proto::streams::state::verif_kani::state_shape;
+        // Everything the function does not look at is concrete (a fresh server connection that has accepted stream 1);
+        // the two initial windows are independent symbolic values, the next local id any even id or exhausted.
+        let (send_init, recv_init): (u32, u32) = (kani::any(), kani::any());
+        kani::assume(send_init <= MAX_WINDOW_SIZE && recv_init <= MAX_WINDOW_SIZE);
+        let next: u32 = kani::any();
+        kani::assume(next >= 2 && next % 2 == 0 && next <= u32::MAX >> 1);
+        // (ids exhausted => UserError::OverflowedStreamId before anything is created: Send::ensure_next_stream_id, unit v_send)
+        let next_id: Result<StreamId, crate::frame::StreamIdOverflow> = Ok(StreamId::from(next));
+        let next0 = next_id.ok().map(u32::from);
+        let send = crate::proto::streams::send::verif_kani::mk_send(
+            crate::proto::streams::prioritize::verif_kani::mk_prioritize(65_535, 65_535, 1 << 20), next_id, StreamId::MAX, send_init);
+        let mut recv = crate::proto::streams::recv::verif_kani::mk_recv(65_535, 65_535, 0, Ok(StreamId::from(3)));
+        crate::proto::streams::recv::verif_kani::recv_set_init_window(&mut recv, recv_init);
+        let mut inner = mk_inner(any_counts(peer::Dyn::Server), recv, send);
+        // the request stream the push is associated with: the request is complete, the response still open
+        let mut parent = Stream::new(StreamId::from(1), send_init, recv_init);
+        parent.state = state_shape(5, 0);
+        let pkey = put(&mut inner.store, parent);
+        let shared = Arc::new(Mutex::new(inner));
+        let mut sr: StreamRef<SymBuf> = StreamRef {
+            opaque: OpaqueStreamRef { inner: shared.clone(), key: pkey },
+            send_buffer: Arc::new(mk_send_buffer()),
+        };
+        let r = sr.send_push_promise(http::Request::new(()));
+        if let Ok(ref child) = r {
+            let me = match shared.lock() { Ok(g) => g, Err(e) => e.into_inner() };
+            let c = peek(&me.store, child.opaque.key);
+            assert!(matches!(c, Some(s) if raw(&s.send_flow) == (send_init as i32, 0)),
+                "streams.send_push_promise.promised_stream_send_window_is_the_peers_initial_window");
+            assert!(matches!(c, Some(s) if raw(&s.recv_flow) == (recv_init as i32, recv_init as i32)),
+                "streams.send_push_promise.promised_stream_recv_window_is_our_initial_window");
+            assert!(matches!(c, Some(s) if s.is_pending_push && s.ref_count == 1 && Some(u32::from(s.id)) == next0 && u32::from(s.id) % 2 == 0),
+                "streams.send_push_promise.promised_stream_has_the_next_local_id_and_waits_for_its_push_promise");
+            std::mem::forget(me);
+        }
+        kani::cover!(r.is_ok() && send_init != recv_init, "cover.pushed_with_different_windows");
+        std::mem::forget(r);
+        std::mem::forget(sr);
+        std::mem::forget(shared);
+    }
 }
